@@ -18,7 +18,7 @@ from whoosh import scoring, query
 concrete_arrays()
 
 LEAVES = C.leaves()
-LSEL = list(range(len(LEAVES))) if THOROUGH else [0, 1, 2, 6, 9, 11, 12, 16, 18]
+LSEL = [0, 1, 2, 3, 5, 6, 9, 11, 12, 14, 16, 18, 19] if THOROUGH else [0, 1, 2, 6, 9, 11, 12, 16, 18]
 NSEL = len(LSEL)
 EPS = 1e-9
 _S = {}
@@ -136,7 +136,7 @@ FUNCS = ["whoosh.scoring.BM25FScorer.max_quality", "whoosh.scoring.BM25FScorer.b
          "whoosh.scoring.WeightScorer", "whoosh.codec.whoosh3.W3LeafMatcher.block_quality", "whoosh.codec.whoosh3.W3LeafMatcher.skip_to_quality",
          "whoosh.matching.binary.*.block_quality", "whoosh.matching.binary.*.max_quality", "whoosh.matching.binary.*.skip_to_quality",
          "whoosh.matching.binary.*.replace", "whoosh.matching.wrappers.*", "whoosh.matching.combo.*"]
-NT = tiered(8, 14)
+NT = tiered(8, 10)
 
 
 def _mk(op):
